@@ -151,7 +151,7 @@ def execute(case):
         from cobald.decorator.buffer import Buffer
 
         st["env"] = True
-        svc = Buffer(pool, window=interval)
+        svc = Buffer(pool, window=interval) if interval != 10.0 else Buffer(pool)   # 10 s is the documented default
         st["env"] = False
         pending0, fcount0 = p0["demand"], 0
     elif kind == "factory":
@@ -297,6 +297,9 @@ def random_case(rnd, scns):
     kind = rnd.choice(KINDS)
     scn = rnd.choice(scns[kind])
     I = rnd.choice([2, 4, 8, 10])
+    default_window = kind == "buffer" and rnd.random() < 0.15
+    if default_window:
+        I = 80   # a Buffer left to its default window of 10 s
     if kind == "stepwise":
         scn = dict(scn, iv=I // 2)
     T = rnd.choice([2, 3, 5, 6]) * I + rnd.choice([1, I - 1]) if I > 2 else rnd.choice([5, 9, 13])
@@ -321,7 +324,7 @@ def random_case(rnd, scns):
             if kind == "linear" and attr == "demand":
                 attr = "util"
             env.append({"t": t, "e": "Set", "attr": attr, "v": rnd.choice([0, 16, 32, 64]) if attr in ("supply", "demand") else rnd.randrange(0, 5)})
-    return {"scn": scn, "pool": pool, "I": I, "env": env, "T": T, "src": "random", "ts": rnd.choice([1.0, 1.0, 0.8, 1.1, 0.3])}
+    return {"scn": scn, "pool": pool, "I": I, "env": env, "T": T, "src": "random", "ts": 1.0 if default_window else rnd.choice([1.0, 1.0, 0.8, 1.1, 0.3])}
 
 
 def judge(ctx, cases, traces, verdicts):
